@@ -24,6 +24,11 @@ BASES = {
     "std_late": {"sampler": "std"},                                     # flow phase, 3 trainings, pickle + .old, model.pt + .old
     "std_early": {"sampler": "std", "kwargs": {"max_iteration": 30, "checkpoint_interval": 10}},   # uninformed phase, no weights yet
     "ins": {"sampler": "ins"},                                          # 3 levels, pickle without .old
+    # still running (2 levels done, will not stop before iteration 5): the resumed sampler has to train again
+    "ins_mid": {"sampler": "ins", "kwargs": {"max_iteration": 6, "min_iteration": 5}, "stop_after": 2},
+    # one directory per training (training/block_k/model.pt) and a training every 25 iterations
+    "std_blocks": {"sampler": "std", "kwargs": {"save_training_data": True, "training_frequency": 25,
+                                                "max_iteration": 150}},
 }
 
 HAND = {
@@ -33,6 +38,8 @@ HAND = {
     "sk_save_w_ins": "save_weights_ops",
     "rc_now": "rc_today",
     "rh_now": "KeepPickled",
+    "sk_train_ins": "train_ops_today",
+    "sk_train_std": "train_ops_today",
 }
 
 
@@ -48,7 +55,9 @@ def translate(chk):
                     ("sk_save_w", lambda: c11_ops.flowmodel_save_weights()[0]),
                     ("sk_save_w_ins", lambda: c11_ops.importance_save_weights()[0]),
                     ("rc_now", c11_ops.reader_config),
-                    ("rh_now", lambda: c11_ops.resume_holder()[0])):
+                    ("rh_now", lambda: c11_ops.resume_holder()[0]),
+                    ("sk_train_ins", lambda: c11_ops.training_ops("ins")),
+                    ("sk_train_std", lambda: c11_ops.training_ops("std"))):
         try:
             defs[key] = fn()
             status[key] = "translated: " + defs[key]
@@ -70,6 +79,8 @@ def defs_text(defs):
         t += f"Definition {k} : writer := {defs[k]}.\n"
     t += f"Definition rc_now : rcfg := {defs['rc_now']}.\n"
     t += f"Definition rh_now : rholder := {defs['rh_now']}.\n"
+    t += f"Definition sk_train_ins : trainer := {defs['sk_train_ins']}.\n"
+    t += f"Definition sk_train_std : trainer := {defs['sk_train_std']}.\n"
     return t
 
 
@@ -79,6 +90,9 @@ def today(chk, defs):
             "Proof. vm_compute. reflexivity. Qed.\n")
     # two kills: the resumed sampler checkpoints to the file name it holds after the resume
     txt += ("Lemma today_two : c11_two_ok rc_now rh_now sk_dump_keep sk_dump_nokeep = true.\n"
+            "Proof. vm_compute. reflexivity. Qed.\n")
+    # a killed training (directory creation + weights save) can be run again by the resumed sampler
+    txt += ("Lemma today_train : train_reusable_ins sk_train_ins && train_reusable_std sk_train_std = true.\n"
             "Proof. vm_compute. reflexivity. Qed.\n")
     # instantiating the soundness theorems on today's skeletons = the property for this source
     txt += """
@@ -136,6 +150,20 @@ Proof.
   exact (two_crash_sound B bytes decode H1 H2 H3 rc_now rh_now mk s _ (Hc s Hs) Hl).
 Qed.
 
+Lemma today_property_train_ins : forall ws d0, In ws ins_weights_scens ->
+  In d0 [no_dirs; dupd no_dirs (match fst ws with Base (Lvl n) => DLvl n | _ => DLvl 0 end)] ->
+  let tops := sk_train_ins (match fst ws with Base (Lvl n) => DLvl n | _ => DLvl 0 end) (fst ws) (s_new (snd ws)) in
+  forall c0 : cstate B, sim B bytes decode c0 (s_init (snd ws)) ->
+  forall n j, exists v,
+    (forall f, classify decode (cview (cexec bytes (tfiles (firstn n tops)) c0) j) f = v f)
+    /\\ run_ok (closed v) (dexec (firstn n tops) d0) tops = true.
+Proof.
+  intros ws d0 Hw Hd tops. pose proof today_train as T. apply andb_prop in T. destruct T as [T _].
+  unfold train_reusable_ins in T. rewrite forallb_forall in T. specialize (T ws Hw).
+  rewrite forallb_forall in T.
+  exact (train_reusable_sound B bytes decode H1 H2 H3 tops _ d0 (T d0 Hd)).
+Qed.
+
 Lemma today_property_weights : forall s, In s std_weights_scens -> forall c0 : cstate B,
     ahnd (s_init s) = None -> chnd c0 = None -> (forall f, classify decode (cfs c0) f = afs (s_init s) f) ->
   forall n j o, In o (resume rc_now (classify decode (crash_exec bytes (sk_save_w WT (s_new s)) c0 n j))) ->
@@ -162,7 +190,8 @@ Qed.
 End TodayProperty.
 """
     ok, _, err = chk.coq_run("today", txt)
-    chk.oblige("today: c11_ok and c11_two_ok (two kills, writer on the file the resumed sampler holds) on the regenerated "
+    chk.oblige("today: c11_ok, c11_two_ok (two kills, writer on the file the resumed sampler holds) and train_reusable "
+               "(a killed training - makedirs + weights save - can be run again in what the kill left) on the regenerated "
                "writers (safe_file_dump keep/no-keep, FlowModel.save_weights, ImportanceFlowModel.save_weights), reader "
                "configuration and resume_file holder + instantiated soundness theorems",
                "today", ok, err)
@@ -233,7 +262,15 @@ def gen_cases(chk):
     # first kill inside the write of the temp file: the resume reads the .old copy as well (keep) / the primary
     add("std-two-kills-in-write", "std_late", [dict(W("checkpoint"), k=3, j=9000), W("checkpoint")],
         only=["move"] if q else None, cuts=[0.5] if q else cuts)
+    # --- "sampling can continue": kill inside the weights save of level / block k (or between that save and the
+    #     next checkpoint: the reference run), resume, and go on for one more level / training and checkpoint
+    add("ins-train-continue", "ins_mid", [W("train", cont=True)], only=["write"], cuts=[0.5] if q else cuts)
+    add("std-blocks-train-continue", "std_blocks", [W("train", cont=30)], only=["write"], cuts=[0.5] if q else cuts)
     if not q:
+        add("ins-train-continue-all", "ins_mid", [W("train", cont=True)], only=["exists", "move", "open", "close"])
+        add("ins-ckpt-continue", "ins_mid", [W("checkpoint", cont=True)], cuts=[0.5])
+        add("std-blocks-ckpt-continue", "std_blocks", [W("checkpoint", cont=30)], cuts=[0.5])
+        add("std-blocks-train-continue-all", "std_blocks", [W("train", cont=30)], only=["exists", "move", "open", "close"])
         add("std-early-two-kills-via-old", "std_early", [via_old("checkpoint"), W("checkpoint", cont=True)])
         add("std-two-kills-via-old-nokeep", "std_late", [via_old("checkpoint"), W("checkpoint_nokeep")])
         add("ins-two-kills-primary", "ins", [dict(W("checkpoint"), k=1, j=9000), W("checkpoint")])
@@ -319,7 +356,7 @@ def ops_term(step, sampler, nm):
             break
     if target is None:
         return None, None
-    m = re.fullmatch(r"\(Base \(Lvl \d+\)\)|\(Base Wt\)", target)
+    m = re.fullmatch(r"\(Base \(Lvl \d+\)\)|\(Base \(Blk \d+\)\)|\(Base Wt\)", target)
     if not m:
         return None, None
     if "new_digest" not in step:
@@ -393,7 +430,14 @@ def direct_predicate(step):
             return ("weights-not-restored", f"{len(res.get('weights', []))} level flows loaded, checkpoint has {n}")
     c = step.get("continued")
     if c is not None and not c.get("continued"):
-        return ("cannot-continue", f"sampling could not continue after the resume: {c.get('exc')}: {c.get('msg', '')[:160]}")
+        return ("cannot-continue:" + str(c.get("exc")),
+                f"sampling could not continue after the resume: {c.get('exc')}: {c.get('msg', '')[:160]}")
+    if c is not None and not c.get("was_finished"):
+        if c["to"] <= c["from"]:
+            return ("cannot-continue:no-progress", f"the resumed run did not advance (iteration {c['from']} -> {c['to']})")
+        if c.get("checkpoint_iteration") != c["to"]:
+            return ("cannot-continue:no-newer-checkpoint", f"after continuing to iteration {c['to']} the checkpoint on disk is "
+                                                           f"{c.get('checkpoint_iteration')}")
     return None
 
 
@@ -513,6 +557,11 @@ def run(chk):
             chk.count("outcome:" + step["resume"]["outcome"])
             cond = init_cond(step)
             chk.count("init:" + cond)
+            cc = step.get("continued")
+            if cc is not None:
+                chk.count("continued:" + ("finished-run" if cc.get("was_finished") else
+                                          f"+{cc.get('to', 0) - cc.get('from', 0)}it,{cc.get('trainings', 0)}trainings"
+                                          if cc.get("continued") else "FAILED"))
             if crash:
                 chk.nontriv((r["id"], si, step["k"], step["j"]))
             # oracle: exception classes of torn files
